@@ -1,3 +1,4 @@
+import subprocess
 from typing import Optional
 from conductor.utils.output_handler import OutputHandler
 
@@ -16,6 +17,10 @@ class OperationExecutionHandle:
         self.stderr: Optional[OutputHandler] = None
         self.returncode: Optional[int] = None
         self.slot: Optional[int] = None
+        # Keeps the `Popen` object alive while the process is in flight. If it
+        # were dropped, `Popen.__del__()` (or `subprocess._cleanup()`) could
+        # reap the child before our SIGCHLD handler does, losing its exit.
+        self.process: Optional[subprocess.Popen] = None
 
     @classmethod
     def from_async_process(cls, pid: int):
